@@ -51,4 +51,5 @@ def run(prog: Program, col: Collector, tier: str, refs: Optional[Refs] = None, c
     algebra.r_pushdown(prog, col, refs, cat, "R01.8")
     algebra.r_number_tensor_siblings(prog, col, refs, cat, "R01.9")
     algebra.r_absent_vars_kernel(prog, col, refs, cat, "R01.10")
+    algebra.r_op_params_used(prog, col, refs, cat, "R01.11")
     return col
